@@ -98,11 +98,11 @@ func (f *fb) hpai(proto byte, a, b, c, d byte, port uint16) *fb {
 func (f *fb) dibDevInfo(name []byte) *fb {
 	off := len(f.b)
 	f.sOctet(0x36).sOctet(0x01)
-	f.raw(0x02, 0x01, 0x11, 0x05, 0x00, 0x11)             // TP1, programming mode, 1.1.5, project 0x0011
-	f.raw(0x00, 0xC5, 0x01, 0x02, 0xD8, 0x7B)             // serial
-	f.raw(0xE0, 0x00, 0x17, 0x0C)                         // 224.0.23.12
-	f.raw(0x00, 0x24, 0x6D, 0x01, 0xD8, 0x7B)             // MAC
-	nm := make([]byte, 30)                                // NUL padded
+	f.raw(0x02, 0x01, 0x11, 0x05, 0x00, 0x11) // TP1, programming mode, 1.1.5, project 0x0011
+	f.raw(0x00, 0xC5, 0x01, 0x02, 0xD8, 0x7B) // serial
+	f.raw(0xE0, 0x00, 0x17, 0x0C)             // 224.0.23.12
+	f.raw(0x00, 0x24, 0x6D, 0x01, 0xD8, 0x7B) // MAC
+	nm := make([]byte, 30)                    // NUL padded
 	copy(nm, name)
 	f.raw(nm...)
 	f.rg = append(f.rg, region{kDevInfo, off, off + 54}, region{kString, off + 24, off + 54})
